@@ -147,13 +147,21 @@ class Plane(GeoBody):
 
     def __hash__(self):
         """return the hash of a Plane"""
+        # Equal planes may have opposite normals, so hash the normal with a
+        # fixed sign (and the offset that belongs to it)
+        n = self.n
+        for coordinate in n:
+            if abs(coordinate) > get_eps():
+                if coordinate < 0:
+                    n = -n
+                break
         return hash(
             (
                 "Plane",
-                round(self.n[0], get_sig_figures()),
-                round(self.n[1], get_sig_figures()),
-                round(self.n[2], get_sig_figures()),
-                round(self.n * self.p.pv(), get_sig_figures()),
+                round(n[0], get_sig_figures()),
+                round(n[1], get_sig_figures()),
+                round(n[2], get_sig_figures()),
+                round(n * self.p.pv(), get_sig_figures()),
             )
         )
 
